@@ -74,6 +74,7 @@ def run_unit(args):
         for r in S.results:
             rp = r.pop("replay", None)
             model = r.pop("_model", None)
+            r.pop("_hole_terms", None)
             if r["status"] == "failed":
                 if rp is not None:
                     try:
